@@ -117,6 +117,19 @@ impl JumpRecord {
                     finally_throw_flag,
                     finally_throw_index,
                 } => {
+                    // The record is appended to the delegate's jump list by the `Transfer`
+                    // action that follows this one, so its jump-table entry is the length of
+                    // that list *now*. The `index` captured when the jump statement was
+                    // compiled is stale for every `finally` but the innermost one: two
+                    // different `break`/`continue`/`return` statements crossing the same two
+                    // nested `finally` blocks both saw an empty list there and would both
+                    // select entry 1 of the outer table.
+                    let value = match self.actions.last() {
+                        Some(JumpRecordAction::Transfer { index }) => {
+                            compiler.jump_info[*index as usize].jumps.len() as u32
+                        }
+                        _ => value,
+                    };
                     // Note: +1 because 0 is reserved for the fallthrough entry of the
                     // jump table emitted in `pop_try_with_finally_control_info`.
                     let index = value as i32 + 1;
